@@ -49,9 +49,10 @@ CONTRACTS = [
        loops={0: LOOP(index="si", inv=INV + BALANCED), 1: LOOP(index="si", inv=INV + BALANCED)},
        inst_terms=["si"],
        always=INV + BALANCED, props=["C12"]),
-    FN(Q + "close", types=CH, returns="none", modifies=["self"],
+    # (closing a channel that is already closed need not schedule a second flush: C0 = closed on entry)
+    FN(Q + "close", types=CH, returns="none", modifies=["self"], ghost={"C0": "CLOSED()"},
        requires=INV,
-       ensures=[("C12-closed", "CLOSED() and FLUSH_SCHEDULED()")],
+       ensures=[("C12-closed", "CLOSED() and (FLUSH_SCHEDULED() or FLUSHED() or C0)")],
        always=INV + BALANCED, top=["C12-closed"], props=["C12"]),
     FN(Q + "_flush_queue", types=CH, returns="none", modifies=["self"],
        requires=INV + [("runs-after-close", "CLOSED()")],
